@@ -61,6 +61,8 @@ const (
 
 var simpleDocs = []string{`query A { q1 }`, `query A { q2 }`, `{ q3 }`, `{ q1 }`, `{ q1 } `, `{ q1 } #x`, `query A { q1 q2 }`,
 	// introspection walks (and must not write to) the schema every later request is validated against
+	// a resolver that panics, under different response keys: the error's path is the request's own
+	`{ first: echo(s: "panic:1") q1 }`, `{ q2 second: echo(s: "panic:2") }`, `{ item(id: "x") { id } third: echo(s: "panic:3") }`,
 	`{ __type(name: "Query") { fields { name type { kind ofType { kind name } } args { name type { kind ofType { kind name ofType { kind name } } } } } } }`,
 	`{ __schema { types { name fields { name type { kind ofType { kind ofType { kind ofType { kind name } } } } } inputFields { name type { kind ofType { kind name } } } } } }`}
 var invalidDocs = []string{`{ nope }`, `{ q1`, ``, `query A { q1 } query A { q2 }`, `{ item { id } }`, `query Q($u: Int) { q1 }`, `}`}
